@@ -17,13 +17,22 @@ open Fcgi Fcgi.Req Fcgi.Spec
 not yet fed, from `p`'s control state. -/
 def Rem (E : Cfg) (p : Parser) (fut : Bytes) : RefOut := ref E p.state p.pay p.pad (p.raw ++ fut)
 
-/-- No `parse` call with `dest = Some` returns `Err`. -/
-def NoErrDest : Parser → List Op → Prop
-  | _, [] => True
-  | p, op :: t =>
-    (match op with
-     | .parse new (some n) => ∀ e, (p.parse new (some n)).2 ≠ .err e
-     | _ => True) ∧ NoErrDest (applyOp p op) t
+def isErrRes : ParseRes → Bool
+  | .err _ => true
+  | _ => false
+
+def firstErrInternalB : Parser → List Op → Bool
+  | _, [] => true
+  | p, .parse new dest :: t =>
+    if isErrRes (p.parse new dest).2 then dest.isNone else firstErrInternalB (p.parse new dest).1 t
+  | p, op :: t => firstErrInternalB (applyOp p op) t
+
+/-- The first `parse` call that returns `Err` — if there is one — is a call into the internal
+buffer (`dest = None`).  (Later calls all return the same `Err` and deliver nothing.) -/
+def FirstErrInternal (p : Parser) (ops : List Op) : Prop := firstErrInternalB p ops = true
+
+instance (p : Parser) (ops : List Op) : Decidable (FirstErrInternal p ops) :=
+  inferInstanceAs (Decidable (_ = true))
 
 /-- No `parse` call returns `Err`. -/
 def ErrFree : Parser → List Op → Prop
@@ -33,16 +42,50 @@ def ErrFree : Parser → List Op → Prop
      | .parse new dest => ∀ e, (p.parse new dest).2 ≠ .err e
      | _ => True) ∧ ErrFree (applyOp p op) t
 
-theorem ErrFree.noErrDest : ∀ {p : Parser} {ops : List Op}, ErrFree p ops → NoErrDest p ops := by
+/-! Decidability (for `decide +kernel` on concrete histories). -/
+
+theorem notErr_iff (r : ParseRes) : (∀ e, r ≠ .err e) ↔ isErrRes r = false := by
+  cases r with
+  | ok st => simp [isErrRes]
+  | err e => simp [isErrRes]
+  | panic s => simp [isErrRes]
+
+instance decNotErr (r : ParseRes) : Decidable (∀ e, r ≠ .err e) :=
+  decidable_of_iff _ (notErr_iff r).symm
+
+instance decErrFreeHead (p : Parser) : (op : Op) →
+    Decidable (match op with
+      | .parse new dest => ∀ e, (p.parse new dest).2 ≠ .err e
+      | _ => True)
+  | .parse new dest => inferInstanceAs (Decidable (∀ e, (p.parse new dest).2 ≠ .err e))
+  | .consumeStream _ => isTrue trivial
+  | .compress => isTrue trivial
+  | .consumeOutput _ => isTrue trivial
+  | .setStream _ => isTrue trivial
+
+instance decErrFree : (p : Parser) → (ops : List Op) → Decidable (ErrFree p ops)
+  | _, [] => isTrue trivial
+  | p, op :: t => @instDecidableAnd _ _ (decErrFreeHead p op) (decErrFree (applyOp p op) t)
+
+theorem ErrFree.firstErrInternal : ∀ {p : Parser} {ops : List Op}, ErrFree p ops →
+    FirstErrInternal p ops := by
   intro p ops
   induction ops generalizing p with
-  | nil => exact id
+  | nil => intro _; rfl
   | cons op t ih =>
     rintro ⟨h1, h2⟩
-    refine ⟨?_, ih h2⟩
+    have ih' := ih h2
+    unfold FirstErrInternal at ih' ⊢
     cases op with
-    | parse new dest => cases dest <;> first | trivial | exact h1
-    | _ => trivial
+    | parse new dest =>
+      simp only [firstErrInternalB]
+      have : isErrRes (p.parse new dest).2 = false := (notErr_iff _).1 h1
+      rw [this]
+      exact ih'
+    | consumeStream amt => exact ih'
+    | compress => exact ih'
+    | consumeOutput amt => exact ih'
+    | setStream s => exact ih'
 
 /-! ## After an `Err`: silence -/
 
@@ -154,7 +197,7 @@ theorem ops_ref {E : Cfg} {x : Bytes} : ∀ (ops : List Op) (p : Parser),
       C03S.grownAll p ops ++ (Rem E (applyOps p ops) x).out = (Rem E p (fedBytes ops ++ x)).out ∧
       (Rem E (applyOps p ops) x).verdict = (Rem E p (fedBytes ops ++ x)).verdict ∧
       (Rem E (applyOps p ops) x).unread = (Rem E p (fedBytes ops ++ x)).unread ∧
-      (NoErrDest p ops → lost = []) := by
+      (FirstErrInternal p ops → lost = []) := by
   intro ops
   induction ops with
   | nil =>
@@ -179,19 +222,20 @@ theorem ops_ref {E : Cfg} {x : Bytes} : ∀ (ops : List Op) (p : Parser),
             (Rem E p (fedBytes (op :: t) ++ x)).out ∧
           (Rem E (applyOps p (op :: t)) x).verdict = (Rem E p (fedBytes (op :: t) ++ x)).verdict ∧
           (Rem E (applyOps p (op :: t)) x).unread = (Rem E p (fedBytes (op :: t) ++ x)).unread ∧
-          (NoErrDest p (op :: t) → lost = []) := by
+          (FirstErrInternal p (op :: t) → lost = []) := by
       intro op' hop hfed hav hgr e1 e2 e3 e4 e5 e6 e7 hnp
       subst hop
       obtain ⟨lost, a1, a2, a3, a4, a5, a6, a7⟩ := ih (applyOp p op) (hm.of_eq e1 e2 e3) hinv' hl2 hns'
       have hrem : Rem E (applyOp p op) (fedBytes t ++ x) = Rem E p (fedBytes (op :: t) ++ x) := by
         simp only [Rem, e4, e5, e6, e7, hfed]
       rw [hrem] at a3 a4 a5 a6
-      refine ⟨lost, a1, a2, ?_, ?_, a5, a6, fun h => a7 h.2⟩
+      refine ⟨lost, a1, a2, ?_, ?_, a5, a6, fun h => a7 ?_⟩
       · simp only [availOps, hav, List.nil_append]; exact a3
       · simp only [C03S.grownAll, hgr, List.nil_append]; exact a4
+      · cases op <;> first | exact hnp.elim | exact h
     cases op with
     | parse new dest =>
-      obtain ⟨lost1, m1, c1, o1, v1, u1, -, mt1⟩ :=
+      obtain ⟨lost1, m1, c1, o1, v1, u1, dn1, mt1⟩ :=
         parse_ri (E := E) (fut := fedBytes t ++ x) hm hinv hl1.1 hl1.2
       have hap : applyOp p (.parse new dest) = (p.parse new dest).1 := rfl
       rw [hap] at hl2 hinv'
@@ -218,33 +262,25 @@ theorem ops_ref {E : Cfg} {x : Bytes} : ∀ (ops : List Op) (p : Parser),
           simp only [availOps, hap, hq, List.append_assoc, List.nil_append, List.append_nil]
       · rw [← o1, ← o2]
         simp only [C03S.grownAll, hap, List.append_assoc]
-      · rintro ⟨hn1, hn2⟩
-        have h2 := n2 hn2
-        subst h2
-        rw [List.append_nil]
+      · intro hn
+        unfold FirstErrInternal at hn n2
+        simp only [firstErrInternalB] at hn
         cases hp : p.parse new dest with
         | mk p' pr =>
-          rw [hp] at mt1
-          simp only at mt1
+          rw [hp] at mt1 hn n2 c2
+          simp only at mt1 hn n2 c2
           cases pr with
-          | ok st => exact mt1.1
+          | ok st =>
+            simp only [isErrRes, Bool.false_eq_true, if_false] at hn
+            rw [mt1.1, n2 hn]; rfl
           | panic s => exact mt1.elim
           | err e =>
-            cases dest with
-            | none =>
-              obtain ⟨lost1', -, c1', -, -, -, dn, -⟩ :=
-                parse_ri (E := E) (fut := fedBytes t ++ x) (dest := none) (new := new) hm hinv
-                  hl1.1 hl1.2
-              -- `lost` is determined by the ledger equation
-              have h0 := (dn rfl).1
-              subst h0
-              have := c1.trans c1'.symm
-              simp only [List.append_nil, List.append_assoc] at this
-              have := List.append_cancel_left this
-              exact List.append_cancel_right this
-            | some n =>
-              simp only at hn1
-              exact absurd (by rw [hp]) (hn1 e)
+            simp only [isErrRes, if_true, Option.isNone_iff_eq_none] at hn
+            rw [(dn1 hn).1, List.nil_append]
+            obtain ⟨a, b, c⟩ := mt1
+            rw [a, b, ref_atStop c] at c2
+            simp only [List.append_eq_nil_iff] at c2
+            exact c2.1.2
     | consumeStream amt =>
       exact keep _ rfl rfl rfl rfl rfl rfl rfl rfl rfl rfl rfl trivial
     | compress => exact keep _ rfl rfl rfl rfl rfl rfl rfl rfl rfl rfl rfl trivial
